@@ -752,8 +752,21 @@ def enum_c(e):
     eid, fixed, items = e
     body = ", ".join("K%d_%d%s" % (eid, i, "" if it is None else " = " + it[0]) for i, it in enumerate(items))
     s = "enum E%d%s { %s };\n" % (eid, " : " + fixed[0] if fixed else "", body)
-    s += ("unsigned long e%d[] = {sizeof(enum E%d), (enum E%d)-1 < 0, _Alignof(enum E%d)};\n" % (eid, eid, eid, eid))
+    s += ("unsigned long e%d[] = {sizeof(enum E%d), (enum E%d)-1 < 0, _Alignof(enum E%d), _Generic((enum E%d)0, %s, default: 0)};\n"
+          % (eid, eid, eid, eid, eid, ", ".join("%s: %d" % (n, i) for n, i in GENERIC_IDX.items())))
     return s
+
+
+GENERIC_IDX = {"unsigned": 1, "int": 2, "unsigned long": 3, "long": 4, "unsigned long long": 5, "long long": 6,
+               "char": 10, "signed char": 11, "unsigned char": 12, "short": 13, "unsigned short": 14}
+
+
+def generic_expected(e, ty):
+    """index `_Generic` must select: the fixed type itself, else the compatible type the ABI rule names
+    (`long`, not `long long`, for 64 bits: the first candidate of tagspec's / GCC's table)"""
+    if e[1] is not None:
+        return GENERIC_IDX[e[1][0]]
+    return {"4u": 1, "4s": 2, "8u": 3, "8s": 4}[ty]
 
 
 def fixed_signed(fixed, tg):
@@ -805,9 +818,9 @@ def run_enums(ck, cproc, n):
         else:
             x = parse_cproc(o).get("e%d" % e[0])
             vals = items_values(x[1]) if x else None
-        if not vals or len(vals) != 3:
+        if not vals or len(vals) != 4:
             return ("unparsed", o[-200:])
-        return ("ok", "%d%s" % (vals[0], "s" if vals[1] else "u"), vals[2])
+        return ("ok", "%d%s" % (vals[0], "s" if vals[1] else "u"), vals[2], vals[3])
 
     with concurrent.futures.ThreadPoolExecutor(common.NPROC) as ex:
         cobs = list(ex.map(lambda a: observe([cproc, "-t", a[1]], a[0], False), [(e, tg) for e in enums for tg in TARGETS]))
@@ -841,6 +854,10 @@ def run_enums(ck, cproc, n):
             if c[0] == "ok" and c[2] != int(c[1][:-1]):
                 ck.violation(dict(replay, what="_Alignof(enum) differs from its size"))
                 return stats
+            if c[0] == "ok" and c[3] != generic_expected(e, c[1]):
+                ck.violation(dict(replay, what="the enum type is not compatible with the underlying type of the ABI rule "
+                                  "(_Generic selected association %d, expected %d)" % (c[3], generic_expected(e, c[1]))))
+                return stats
             stats["accepted" if c[0] == "ok" else "rejected"] += 1
         # spec validation (clang for all targets is identical here; gcc 12 has no fixed enums and
         # rejects an implicit enumerator that overflows the previous one's type)
@@ -857,7 +874,7 @@ def run_enums(ck, cproc, n):
             else:
                 stats["oracle_checked"] += 1
                 for x in acc:
-                    if x[1] != s[3:]:
+                    if x[1] != s[3:] or x[3] != generic_expected(e, s[3:]):
                         raise Broken("Spec/Abi enum rule disagrees with gcc/clang on `%s`: spec %s, gcc %s, clang %s"
                                      % (enum_c(e).splitlines()[0], s, g, cl))
     ck.cov["enum_hist"] = hist
